@@ -56,7 +56,8 @@ pub enum Frag {
     /// and then one long straight block, 5 the delay loop and then EI;HALT), timer phase /
     /// delay, register code
     DmaBg(u8, u8, u8, Vec<AluSpec>),
-    /// one long straight-line block of register instructions (no terminator inside)
+    /// one long straight-line block of register instructions (no terminator inside; up to 280
+    /// of them, so that a block can be worth more than 256 machine cycles)
     LongBlock(Vec<AluSpec>),
     /// write the P1 select bits, read P1 back and store it in high RAM
     Joy(u8, u8),
@@ -739,7 +740,8 @@ pub fn assemble(p: &ProgSpec) -> (RomImage, ProgInfo) {
                     }
                 }
             }
-            Frag::LongBlock(body) => emit_alu(&mut a, &table, &body[..body.len().min(90)]),
+            // up to 280 instructions: one block worth more than 256 machine cycles
+            Frag::LongBlock(body) => emit_alu(&mut a, &table, &body[..body.len().min(280)]),
             Frag::Joy(sel, slot) => {
                 a.ld_a(*sel & 0x30);
                 a.ldh_a(0x00);
@@ -825,7 +827,7 @@ pub fn frag_strategy_focus(f: Focus) -> impl Strategy<Value = Frag> {
         1 => (any::<u8>(), any::<u16>()).prop_map(|(n, s)| Frag::SpOps(n, s)),
         1 => (prop_oneof![any::<u8>(), Just(0x11u8), Just(0x91u8), Just(0x00u8)], any::<u8>(), any::<u8>()).prop_map(|(l, a, b)| Frag::LcdCfg(l, a, b)),
         1 + 4 * f.dma + f.serial => (any::<u8>(), any::<u8>(), any::<u8>(), alu_vec(90)).prop_map(|(p, k, t, b)| Frag::DmaBg(p, k, t, b)),
-        1 + f.dma + f.serial => alu_vec(90).prop_map(Frag::LongBlock),
+        1 + f.dma + f.serial => prop_oneof![2 => alu_vec(90), 1 => alu_vec(280)].prop_map(Frag::LongBlock),
         1 + 4 * f.joy => (any::<u8>(), any::<u8>()).prop_map(|(s, k)| Frag::Joy(s, k)),
         1 + f.timer => (any::<u8>(), any::<u8>()).prop_map(|(t, b)| Frag::Stop2(t, b)),
         1 + 2 * f.irq + f.joy => any::<u8>().prop_map(Frag::IfWrite),
